@@ -5,6 +5,7 @@
 #include "aln_param.h"
 
 #include "aln_struct.h"
+#include "kalign_verif.h"
 
 #define ALN_PROFILEPROFILE_IMPORT
 #include "aln_profileprofile.h"
@@ -15,6 +16,7 @@
 
 int aln_profileprofile_foward(struct aln_mem* m)
 {
+        KV_EVENT(KV_FWD_BEGIN, m, NULL, 0, 0, 0);
         unsigned int freq[24];
         const float* restrict prof1 = m->prof1;
         const float* restrict prof2 = m->prof2;
@@ -145,11 +147,13 @@ int aln_profileprofile_foward(struct aln_mem* m)
 
         }
         //prof1 -=  (m->enda) << 6;
+        KV_EVENT(KV_FWD_END, m, NULL, 0, 0, 0);
         return OK;
 }
 
 int aln_profileprofile_backward(struct aln_mem* m)
 {
+        KV_EVENT(KV_BWD_BEGIN, m, NULL, 0, 0, 0);
         unsigned int freq[24];
         struct states* restrict s = m->b;
         const float* restrict prof1 = m->prof1;
@@ -281,12 +285,14 @@ int aln_profileprofile_backward(struct aln_mem* m)
 
                 //pa = ca;
         }
+        KV_EVENT(KV_BWD_END, m, NULL, 0, 0, 0);
         return OK;
 }
 
 
 int aln_profileprofile_meetup(struct aln_mem* m,int old_cor[], int* meet,int* t,float* score)
 {
+        KV_EVENT(KV_MEETUP_BEGIN, m, NULL, 0, 0, 0);
         struct states* f = m->f;
         struct states* b = m->b;
         int i;
@@ -406,5 +412,6 @@ int aln_profileprofile_meetup(struct aln_mem* m,int old_cor[], int* meet,int* t,
         *t = transition;
         *score = max;
 
+        KV_EVENT(KV_MEETUP_END, m, NULL, 0, 0, 0);
         return OK;
 }
